@@ -232,7 +232,17 @@ func (g *c02Gen) block(f *C02Flow, budget *int) string {
 			b.WriteString("<tr>")
 			for c := 0; c < nc; c++ {
 				cf := g.newFlow(false)
-				b.WriteString(`<td style="` + rapid.SampledFrom([]string{"", "", "padding:2px", "border:1px solid", "vertical-align:middle"}).Draw(t, "tdst") + `">` + g.inline(cf, rapid.SampledFrom([]int{1, 3, 10}).Draw(t, "celllen")) + "</td>")
+				span := ""
+				if c+1 < nc && rapid.IntRange(0, 4).Draw(t, "colspan") == 0 {
+					span += ` colspan="2"`
+					c++
+					g.feat["table-span"] = true
+				}
+				if r+1 < nr && rapid.IntRange(0, 7).Draw(t, "rowspan") == 0 {
+					span += ` rowspan="2"`
+					g.feat["table-span"] = true
+				}
+				b.WriteString(`<td` + span + ` style="` + rapid.SampledFrom([]string{"", "", "padding:2px", "border:1px solid", "vertical-align:middle"}).Draw(t, "tdst") + `">` + g.inline(cf, rapid.SampledFrom([]int{1, 3, 10, 25}).Draw(t, "celllen")) + "</td>")
 			}
 			b.WriteString("</tr>")
 		}
